@@ -66,6 +66,20 @@ func (c *checker) finishTail() {
 				suffix = "-after-unreplicated-user-restore"
 			}
 		}
+		// C20: after a user restore that the cluster adopted every member ends up on the restored lineage
+		restored := false
+		for _, op := range c.ext.restores {
+			if op.done && op.call != nil && op.call.returned && op.call.err == "" {
+				for _, u := range c.userRestores {
+					if u.burned == op.burned && c.restoreAdopted(u) {
+						restored = true
+					}
+				}
+			}
+		}
+		if restored && suffix == "" && (r.E < probe.index || r.F != L.F) {
+			c.violate("C20", "member-not-on-restored-state", c.tailEnd, "a user Restore returned nil and the cluster went on from it, but after the quiet tail %s (applied %d, state %q) does not hold the leader's state (%s applied %d, state %q)", r.S, r.E, r.R, L.S, L.E, L.R)
+		}
 		if r.E < probe.index {
 			c.violate("C12", "member-not-caught-up"+suffix, c.tailEnd, "%s (in the leader's configuration, connected) has applied index %d < probe index %d after the convergence budget; leader %s applied %d; %s", r.S, r.E, probe.index, L.S, L.E, describeReads(up))
 			continue
